@@ -105,6 +105,89 @@ namespace svcanary
       this->deallocate (this->storage_ptr (), N);
     }
 
+    // R10.1: reallocates although the contents fit exactly (<= instead of <)
+    void canary_realloc_when_fits (size_ty n, const value_ty& val)
+    {
+      if (this->get_capacity () <= n)
+      {
+        size_ty c = this->checked_calculate_new_capacity (n + 1);
+        ptr p = this->unchecked_allocate (c);
+        try
+        {
+          this->uninitialized_fill (p, this->unchecked_next (p, n), val);
+        }
+        catch (...)
+        {
+          this->deallocate (p, c);
+          throw;
+        }
+        this->reset_data (p, c, n);
+      }
+    }
+
+    // R10.2: grows in place without knowing that it fits
+    void canary_grow_unchecked (size_ty k, const value_ty& val)
+    {
+      if (this->get_size () < this->get_capacity ())
+      {
+        this->uninitialized_fill (this->end_ptr (), this->unchecked_next (this->end_ptr (), k), val);
+        this->increase_size (k);
+      }
+    }
+
+    // R14.1: exact (non-geometric) growth
+    void canary_exact_growth (size_ty n, const value_ty& val)
+    {
+      if (this->get_capacity () < n)
+      {
+        if (this->get_max_size () < n)
+          this->throw_allocation_size_error ();
+        ptr p = this->unchecked_allocate (n);
+        try
+        {
+          this->uninitialized_fill (p, this->unchecked_next (p, n), val);
+        }
+        catch (...)
+        {
+          this->deallocate (p, n);
+          throw;
+        }
+        this->reset_data (p, n, n);
+      }
+    }
+
+    // R11.1: reads the (possibly aliasing) argument after the elements were moved away
+    void canary_use_after_move (const value_ty& val)
+    {
+      size_ty c = this->checked_calculate_new_capacity (this->get_size () + 1);
+      ptr p = this->unchecked_allocate (c);
+      this->uninitialized_move (this->begin_ptr (), this->end_ptr (), p);
+      this->construct (this->unchecked_next (p, this->get_size ()), val);
+      this->reset_data (p, c, this->get_size () + 1);
+    }
+
+    // R09.1: adopts the buffer and then touches its elements
+    void canary_steal_then_touch (wrong& other)
+    {
+      if (N < other.get_capacity ())
+      {
+        this->wipe ();
+        this->set_data (other.data_ptr (), other.get_capacity (), other.get_size ());
+        std::move (other.begin_ptr (), other.end_ptr (), other.begin_ptr ());
+        other.set_default ();
+      }
+    }
+
+    // R15.1: dereferences an input iterator twice at one position
+    void canary_double_deref (svp::InIt<value_ty> first, svp::InIt<value_ty> last)
+    {
+      for (; ! (first == last); ++first)
+      {
+        if (std::addressof (*first) != nullptr)
+          this->append_element (*first);
+      }
+    }
+
     // R06.3: size advanced over raw storage
     void canary_size_first (const value_ty& val)
     {
